@@ -67,6 +67,14 @@ func (mt *mtrans) exprU(x ast.Expr) string {
 			a := mt.exprU(x.X)
 			return app(f, a, mt.exprU(x.Y))
 		}
+		if x.Op == token.ADD || x.Op == token.SUB {
+			a := mt.exprU(x.X)
+			g := "add64"
+			if x.Op == token.SUB {
+				g = "sub64"
+			}
+			return "fst (" + app(g, a, mt.exprU(x.Y)) + " 0)"
+		}
 		if x.Op == token.SHR || x.Op == token.SHL {
 			a := mt.exprU(x.X)
 			k, ok := mt.p.litU64(unparen(x.Y))
